@@ -102,7 +102,7 @@ CfgWin ==
 CfgTop ==
   {Cfg("top", g, FX, <<>>, n, o) : g \in {<<>>, G1}, n \in {1, 2, 3}, o \in {<<>>, <<"--min">>}}
   \cup {Cfg("top", g, FX, <<>>, n, o) : g \in {<<>>, G1}, n \in {1, 2}, o \in {<<"-a">>, <<"-a", "--min">>}}
-  \cup {Cfg("top", G1, FX, <<>>, 2, <<"-o", "N">>)}
+  \cup {Cfg("top", G1, FX, <<>>, 2, <<"-o", "N">>), Cfg("top", G1, FXY, <<>>, 2, <<>>), Cfg("top", <<>>, FXY, <<>>, 2, <<"--min">>)}
 
 \* ---- fraction: positive integers
 RUfrac == { <<P("g", "a"), P("x", "1")>>, <<P("g", "a"), P("x", "3")>>, <<P("g", "b"), P("x", "2")>>, <<P("g", "b"), P("x", "4")>>,
